@@ -614,6 +614,11 @@ void f_unique_mapping (void) {
         }
     }
 
+  /* one key per distinct result: the mapping is filled below without find_for_insert(), so the size limit is
+   * tested here (the error handler on the stack releases the collected groups) */
+  if (numkeys > CONFIG_INT (__MAX_MAPPING_SIZE__))
+    mapping_too_large ();
+
   m = allocate_mapping (nmask = numkeys << 1);
   mtable = m->table;
   numkeys = 0;
